@@ -68,39 +68,92 @@ func (c *Ctx) mustConst(pkgPath, name string) int64 {
 func c17R1(c *Ctx, id string) {
 	c.rule(id, "lock-before-content", 4, func() {
 		open := c.fn("bbolt.Open")
-		fl := c.theCall(id, open, "bbolt.flock")
-		if fl == nil {
+		fls := plainCallsIn(open, "bbolt.flock")
+		if len(fls) == 0 {
+			c.check(id+":bbolt.Open:call-bbolt.flock", open, open.Pos(), "Open locks the file", false, "found 0 calls to bbolt.flock in bbolt.Open")
 			return
+		}
+		fl := fls[0]
+		isFlock := func(in ssa.Instruction) bool {
+			for _, f := range fls {
+				if ssa.Instruction(f) == in {
+					return true
+				}
+			}
+			return false
 		}
 		openFileF := c.dbField("openFile")
 		ofs := fieldCallsIn(open, openFileF)
-		okOpen := len(ofs) == 1 && dominates(ofs[0].(ssa.Instruction), fl)
+		okOpen := len(ofs) == 1
+		for _, f := range fls {
+			if okOpen && !dominates(ofs[0].(ssa.Instruction), f) {
+				okOpen = false
+			}
+		}
 		c.check(id+":bbolt.Open:openFile<flock", open, fl.Pos(), "the file is opened before it is locked", okOpen, fmt.Sprintf("%d openFile calls / flock not dominated", len(ofs)))
-		// flock dominates every read of content, through its success edge
+		// a successful flock lies on every path to every read of content (one call, or one per lock mode)
 		readers := []string{"os.(*File).Stat", "bbolt.(*DB).init", "bbolt.(*DB).getPageSize", "bbolt.(*DB).mmap", "bbolt.(*DB).loadFreelist", "bbolt.(*DB).Begin"}
 		bad := ""
 		n := 0
 		var errSucc []*ssa.BasicBlock
-		for _, t := range errTests(fl) {
-			errSucc = append(errSucc, t.NonNil)
+		tested := true
+		for _, f := range fls {
+			ts := errTests(f)
+			if len(ts) == 0 {
+				tested = false
+			}
+			for _, t := range ts {
+				errSucc = append(errSucc, t.NonNil)
+			}
 		}
 		fromErr := reach(nil, errSucc, nil, nil)
+		unlocked := reach(nil, []*ssa.BasicBlock{open.Blocks[0]}, isFlock, nil)
 		for _, ci := range callsIn(open, readers...) {
 			n++
 			in := ci.(ssa.Instruction)
-			if !dominates(fl, in) || fromErr[in] || len(errSucc) == 0 {
+			if unlocked[in] || fromErr[in] || !tested {
 				bad = calleeOf(ci).Name() + " at " + c.P.Position(ci.Pos())
 			}
 		}
 		c.check(id+":bbolt.Open:flock<content", open, fl.Pos(), fmt.Sprintf("flock succeeds before every read of the file's content (%d reader calls: Stat, init, getPageSize, mmap, loadFreelist, Begin)", n), bad == "" && n >= 4,
 			"content is read without holding the lock: "+bad)
-		// exclusive == !db.readOnly
+		// exclusive == !db.readOnly: tabulated over the flag — every flock call that can run asks for the exclusive lock
+		// exactly when the database is not read-only
 		roF := c.dbField("readOnly")
-		okEx := false
-		if u, ok := fl.Call.Args[1].(*ssa.UnOp); ok && u.Op == token.NOT {
-			okEx = pathOf(u.X).Last() == roF
+		okEx := true
+		detailEx := ""
+		for _, ro := range []bool{true, false} {
+			atoms := func(v ssa.Value) (V, bool) {
+				if u, ok := v.(*ssa.UnOp); ok && u.Op == token.MUL {
+					if fa, ok := u.X.(*ssa.FieldAddr); ok && fieldOfAddr(fa) == roF {
+						return bV(ro), true
+					}
+				}
+				return unkV, false
+			}
+			r := reachUnder([]*ssa.BasicBlock{open.Blocks[0]}, atoms)
+			pe := newPeval(atoms)
+			some := false
+			for _, f := range fls {
+				if !r[f] {
+					continue
+				}
+				some = true
+				ex, known := pe.ev.ValueAtEntry(f.Call.Args[1]).Bool()
+				if !known || ex != !ro {
+					okEx = false
+					detailEx = fmt.Sprintf("with readOnly=%v the lock request at %s is exclusive=%v (known=%v)", ro, c.P.Position(f.Pos()), ex, known)
+				}
+			}
+			if !some {
+				okEx = false
+				detailEx = fmt.Sprintf("with readOnly=%v no flock call is reachable", ro)
+			}
 		}
-		c.check(id+":bbolt.Open:exclusive=!readOnly", open, fl.Pos(), "flock's exclusive argument is !db.readOnly", okEx, "the lock mode does not follow the read-only flag")
+		if detailEx == "" {
+			detailEx = "the lock mode does not follow the read-only flag"
+		}
+		c.check(id+":bbolt.Open:exclusive=!readOnly", open, fl.Pos(), "flock's exclusive argument is !db.readOnly (tabulated over the flag for every flock call in Open)", okEx, detailEx)
 		// readOnly is set exactly on the options.ReadOnly branch, which selects O_RDONLY
 		optRO := c.P.lookupField(rootPkg, "Options", "ReadOnly")
 		stores := storesToField(c.P.FnsIn(rootPkg), roF)
